@@ -509,6 +509,9 @@ func (g *c26Graph) expand(idx int) {
 			vr.Fatalf("build %v: %v", build, err)
 		}
 		if in.sig != "" {
+			// a violating state: reported, not expanded (as everywhere: nothing is explored below a violation)
+			g.p.Mark("states", in.model.key())
+			g.p.Mark("violating", in.model.key())
 			g.report(in, build)
 			return
 		}
@@ -684,7 +687,9 @@ func TestVerifC26(t *testing.T) {
 	// closure: every state reached as a successor must have been expanded itself
 	unexpanded := int64(0)
 	for h := range total.Sets["successors"] {
-		if _, ok := total.Sets["expanded"][h]; !ok {
+		_, ex := total.Sets["expanded"][h]
+		_, bad := total.Sets["violating"][h]
+		if !ex && !bad {
 			unexpanded++
 		}
 	}
@@ -709,7 +714,7 @@ func TestVerifC26(t *testing.T) {
 		Extra: map[string]any{
 			"candidate_tables": total.Counters["candidates"], "tables_accepted_by_real_code": total.Counters["candidates_built"],
 			"tables_rejected_by_real_code": total.Counters["candidates_rejected"], "expanded_states": total.Card("expanded"),
-			"successor_states": total.Card("successors"), "successors_not_expanded": unexpanded, "state_changing_transitions": total.Counters["state_changing"],
+			"successor_states": total.Card("successors"), "successors_not_expanded": unexpanded, "violating_states_reported_not_expanded": total.Card("violating"), "state_changing_transitions": total.Counters["state_changing"],
 			"revert_rebuilds": total.Counters["revert_rebuilds"],
 			"heartbeats": total.Counters["hb"], "heartbeats_accepted": total.Counters["hb_accepted"],
 			"heartbeats_legal_by_model": total.Counters["hb_legal"], "legal_heartbeats_rejected(measured_only)": total.Counters["hb_legal_rejected"],
